@@ -490,6 +490,30 @@ def check_object(bt, G, sh, desc, depth=0, hess=True, pointwise=True):
     if X is not None:
         bt.cmp('__call__(arrays)', X, sh.V, sc, D)
 
+    # mixed calls: per axis a scalar (axis dropped), an array of length 1 (axis kept with length 1) or the full axis
+    # vector; the result is the corresponding sub-array of the tensor-grid values
+    for combo in itertools.product('s1f', repeat=D):
+        if len(set(combo)) == 1 and combo[0] in 'sf':
+            continue
+        args, index = [], []
+        for k in range(D):
+            j = min(1, len(grid[k]) - 1)
+            if combo[k] == 's':
+                args.append(float(grid[k][j])); index.append(j)
+            elif combo[k] == '1':
+                args.append(np.array([grid[k][j]], dtype=float)); index.append(slice(j, j + 1))
+            else:
+                args.append(np.asarray(grid[k], dtype=float)); index.append(slice(None))
+        X = g('__call__(mixed)', lambda: np.asarray(G(*[args[D - 1 - c] for c in range(D)]), dtype=float))
+        if X is not None:
+            E = sh.V[tuple(index)]
+            ng = sum(1 for ch in combo if ch != 's')
+            if X.shape[:ng] != E.shape[:ng]:          # strict on the grid axes (cmp tolerates singleton output axes)
+                bt.viol('__call__(mixed scalar/length-1/array arguments)', 'wrong grid shape',
+                        arguments=''.join(combo), got=list(X.shape), expected=list(E.shape))
+            else:
+                bt.cmp('__call__(mixed scalar/length-1/array arguments)', X, E, sc, D)
+
     # -- scattered points: the tensor grid as unstructured point lists, coordinates in xyz order ----------
     if pointwise:
         M = np.meshgrid(*grid, indexing='ij')
@@ -507,6 +531,24 @@ def check_object(bt, G, sh, desc, depth=0, hess=True, pointwise=True):
             X = g('pointwise_jacobian', lambda: G.pointwise_jacobian(P))
             if X is not None:
                 bt.cmp('pointwise_jacobian', X, sh.J, sc, D)
+        # the same points with another memory layout (same shape, same values, other strides): slices of a
+        # "coordinates last" point array, Fortran-ordered copies, zero-stride broadcasts of the axis vectors;
+        # an evaluation at scattered points is elementwise, so nothing may change
+        if D >= 2:
+            PL = np.stack(P, axis=-1)
+            Ms = np.meshgrid(*grid, indexing='ij', sparse=True)
+            layouts = [('strided-view', [PL[..., c] for c in range(D)]),
+                       ('fortran-order', [np.asfortranarray(q) for q in P]),
+                       ('broadcast-view', [np.broadcast_to(Ms[D - 1 - c], P[c].shape) for c in range(D)])]
+            for lname, PV in layouts:
+                if hasattr(G, 'pointwise_eval'):
+                    X = g('pointwise_eval', lambda: G.pointwise_eval(PV))
+                    if X is not None:
+                        bt.cmp('pointwise_eval[%s]' % lname, X, sh.V, sc, D)
+                if hasattr(G, 'pointwise_jacobian'):
+                    X = g('pointwise_jacobian', lambda: G.pointwise_jacobian(PV))
+                    if X is not None:
+                        bt.cmp('pointwise_jacobian[%s]' % lname, X, sh.J, sc, D)
 
     if depth >= 2:
         return
